@@ -32,6 +32,10 @@ type Profile struct {
 	VaryGas              bool
 	ContractGasCap       uint64
 	Inject               bool // generate CheckTx/Query injections (C06, C19)
+	Alt                  *Profile // alternative profile used for PAlt percent of the cases
+	PAlt                 int
+	IsAlt                bool
+	LiveInject           bool // only prepare fresh valid txs per block; the engine serves them as CheckTx while it drives the primary
 	NonceChaos           bool   // more gaps / stale nonces
 	GovFocus             string // option documents mostly change this parameter
 	TightMaxVals         bool   // validator-count limit close to the number of candidates
@@ -44,6 +48,18 @@ func defaultWeights() map[string]int {
 		"transfer": 20, "stake": 14, "unstake": 10, "withdraw": 8, "propose": 6, "vote": 8,
 		"setdoc": 4, "deploy": 4, "call": 5, "replay": 4, "raw": 3,
 	}
+}
+
+// massExitProfile: many stakes on few validators and frequent (forced) releases, so that several stakes
+// mature - several keys leave one ledger - in the same block while others stay.
+func massExitProfile() *Profile {
+	p := defaultProfile()
+	p.MinBlocks, p.MaxBlocks = 14, 36
+	p.MaxTxs = 12
+	p.Users = 6
+	p.PFault = 5
+	p.W = map[string]int{"transfer": 8, "stake": 42, "unstake": 30, "withdraw": 4, "propose": 3, "vote": 4, "setdoc": 1, "deploy": 2, "call": 2, "replay": 2, "raw": 1}
+	return p
 }
 
 func defaultProfile() *Profile {
@@ -162,6 +178,12 @@ func NewGenSource(t *rapid.T, p *Profile) *GenSource {
 	if os.Getenv("VERIF_NO_EXCLUSIONS") != "" {
 		q := *p
 		q.EarlyQuiet, q.OneGenesisUnbond = false, false
+		p = &q
+	}
+	if p.Alt != nil && pct(t, p.PAlt, "altProfile") {
+		q := *p.Alt
+		q.IsAlt = true
+		q.EarlyQuiet, q.OneGenesisUnbond = p.EarlyQuiet, p.OneGenesisUnbond
 		p = &q
 	}
 	s := &GenSource{t: t, P: p}
@@ -283,7 +305,7 @@ func (s *GenSource) StartBlock(w *World) *Block {
 	}
 	s.nTx = unif(t, s.P.MaxTxs+1, "nTxs")
 	s.fresh = nil
-	if s.P.Inject {
+	if s.P.Inject || s.P.LiveInject {
 		// fresh valid transactions that only ever reach the mempool check
 		saveFault, saveW := s.P.PFault, s.P.W
 		s.P.PFault = 0
@@ -484,6 +506,8 @@ func (s *GenSource) amountFor(w *World, from *Actor, label string) *uint256.Int 
 var (
 	sinkRuntime     = unhx("60005460010160005500")
 	reverterRuntime = unhx("60006000fd")
+	// CALLER SELFDESTRUCT: pays its whole balance to whoever calls it and is gone
+	suiciderRuntime = unhx("33ff")
 )
 
 func initCodeFor(runtime []byte) []byte {
@@ -755,8 +779,11 @@ func (s *GenSource) genTx(w *World, b *Block) ([]byte, string) {
 		sp.to = make([]byte, 20)
 		code := initCodeFor(sinkRuntime)
 		tmpl := "sink"
-		if pct(t, 25, "reverter") {
+		switch k := unif(t, 100, "deployTemplate"); {
+		case k >= 80:
 			code, tmpl = initCodeFor(reverterRuntime), "reverter"
+		case k >= 60:
+			code, tmpl = initCodeFor(suiciderRuntime), "suicider"
 		}
 		if pct(t, 30, "deployValue") {
 			sp.amount = u256(uint64(rapid.IntRange(1, 1000).Draw(t, "deployVal")))
